@@ -226,11 +226,16 @@ class SignatureInfo:
         param = self.parameters[argument]
     else:
       assert isinstance(argument, int)
-      if (
-          self.var_positional_start is not None
-          and argument < self.var_positional_start
-      ):
-        params = list(self.parameters.values())
+      params = list(self.parameters.values())
+      positional_end = self.var_positional_start
+      if positional_end is None:
+        # *args does not exist: positional parameters end where the first
+        # keyword-only or variadic keyword parameter starts.
+        positional_end = sum(
+            p.kind in (p.POSITIONAL_ONLY, p.POSITIONAL_OR_KEYWORD)
+            for p in params
+        )
+      if 0 <= argument < positional_end:
         param = params[argument]
     if param and param.default is not param.empty:
       value = param.default
